@@ -108,7 +108,7 @@ func zoo() []VD {
 		VD{K: "nilptr", S: "slice"},
 		VD{K: "nilptr", S: "map"},
 	)
-	return []VD{a, b, zooNode("top", true), vList("ptr", zooNode("ptop", true)), vStr("just a string"), vList("arr2", vList("slice", vInt(1)), zooNode("ia", false))}
+	return []VD{a, b, intKeyZoo(), zooNode("top", true), vList("ptr", zooNode("ptop", true)), vStr("just a string"), vList("arr2", vList("slice", vInt(1)), zooNode("ia", false))}
 }
 
 // exoticZoo holds keys only the quoted bracket form can spell (region of finding kfQuoted).
@@ -136,6 +136,9 @@ func stringKeyed(cur any) bool {
 }
 
 func numericHome(cur any) bool {
+	if _, _, _, ok := intMapInfo(cur); ok {
+		return true
+	}
 	if _, ok := seqLen(cur); ok {
 		return true
 	}
@@ -151,7 +154,7 @@ func numericHome(cur any) bool {
 // 0 dotted · 1 [n] / ['k'] · 2 [n] on sequences, ["k"] elsewhere (also for numeric keys of
 // string-keyed containers) · 3 alternating dotted / mode 1.
 func pickQ(mode, depth int, cur any, k string) int {
-	_, _, canon := canonInt(k)
+	canon := decimal(k)
 	if exoticKey(k) {
 		if mode == 2 {
 			return 3
@@ -224,7 +227,7 @@ func enumPaths(rec *ev.Rec, known *kf.File, maxDepth, shard, shards int) (int, b
 					return true
 				}
 				d := len(steps)
-				for _, k := range validSteps(cur) {
+				for _, k := range validStepsFor(cur, avoid) {
 					st := Step{K: k, Q: pickQ(mode, d, cur, k)}
 					next, out, _ := index(cur, st)
 					if out != reach {
@@ -345,6 +348,12 @@ func (g genCtx) node(t *rapid.T, depth int) VD {
 			m["M"] = VD{K: "map", M: mm}
 		}
 	}
+	if rapid.IntRange(0, 3).Draw(t, "hasSmall") == 0 {
+		m["Small"] = genIntMapOf(t, "int8")
+	}
+	if rapid.IntRange(0, 3).Draw(t, "hasBytes") == 0 {
+		m["Bytes"] = genIntMapOf(t, "uint8")
+	}
 	if opt("Tags") {
 		mm := map[string]VD{}
 		for i, n := 0, rapid.IntRange(0, 2).Draw(t, "nTags"); i < n; i++ {
@@ -371,7 +380,7 @@ func (g genCtx) val(t *rapid.T, depth int) VD {
 		}
 		return l
 	}
-	switch rapid.IntRange(0, 23).Draw(t, "kind") {
+	switch rapid.IntRange(0, 26).Draw(t, "kind") {
 	case 0, 1:
 		return g.val(t, 0)
 	case 2, 3, 4:
@@ -402,6 +411,8 @@ func (g genCtx) val(t *rapid.T, depth int) VD {
 			m[g.key(t)] = vInt(i)
 		}
 		return VD{K: "mapsi", M: m}
+	case 24, 25, 26:
+		return genIntMap(t)
 	case 16:
 		m := map[string]VD{}
 		for i, n := 0, rapid.IntRange(0, 3).Draw(t, "n"); i < n; i++ {
@@ -439,9 +450,22 @@ func (g genCtx) val(t *rapid.T, depth int) VD {
 	}
 }
 
+func genIntMapOf(t *rapid.T, typ string) VD {
+	pool := intKeyPool(typ)
+	m := map[string]VD{}
+	for i, n := 0, rapid.IntRange(0, 3).Draw(t, "nk"); i < n; i++ {
+		m[rapid.SampledFrom(pool).Draw(t, "ik")] = vStr(fmt.Sprintf("%s#%d", typ, i))
+	}
+	return VD{K: "mapk", S: typ, M: m}
+}
+
+func genIntMap(t *rapid.T) VD {
+	return genIntMapOf(t, rapid.SampledFrom(intKeyTypes).Draw(t, "ktype"))
+}
+
 // genQ draws one of the spellings that are defined for step k on cur.
 func genQ(t *rapid.T, cur any, k string) int {
-	_, _, canon := canonInt(k)
+	canon := decimal(k)
 	var allowed []int
 	switch {
 	case exoticKey(k):
@@ -468,7 +492,7 @@ func genSteps(t *rapid.T, v any, maxDepth int, avoid func(string) bool) []Step {
 	for i := 0; i < n; i++ {
 		var k string
 		if alive {
-			valid := validSteps(cur)
+			valid := validStepsFor(cur, avoid)
 			pInvalid := 1 // of 10
 			if i == n-1 {
 				pInvalid = 4
